@@ -242,9 +242,9 @@ const fn convert_p32bits_to_u32(ui_a: u32) -> u32 {
         1 // 1/2 < x < 3/2 rounds to 1.
     } else if ui_a <= 0x4A00_0000 {
         2 // 3/2 <= x <= 5/2 rounds to 2. // For speed. Can be commented out
-    } else if ui_a > 0x7FAF_FFFF {
-        //overflow so return max integer value
-        0x7FFF_FFFF
+    } else if ui_a > 0x7FBF_FFFF {
+        //overflow (2^32 and above) so return max integer value
+        0xFFFF_FFFF
     } else {
         let (scale, bits) = P32E2::calculate_scale(ui_a);
 
